@@ -12,7 +12,6 @@ Open Scope list_scope.
 Section Err.
 Context {Q : Type}.
 Variable O : ops Q.
-Variable stale : string -> nat -> bool.
 Variable lits : bool * bool.
 Hypothesis Hnostruct : snd lits = false.
 Hypothesis fmt_total : forall spec v, exists s, fmt_spec O spec v = Ok s.
@@ -33,7 +32,7 @@ Definition comp_err (ce : cenv) (L : list (string * value Q)) (fi fp : nat) (frs
 
 Definition expr_err (n : nat) : Prop :=
   forall vg vn vf L e err,
-    eval O stale lits n W vg vn vf L e = Err err ->
+    eval O lits n W vg vn vf L e = Err err ->
     forall ce fi fp frs, cenv_rel O C W ce vg vn vf -> comp_err ce L fi fp frs (cexpr ce e) err.
 
 Lemma bind_err {A B} : forall (r : res A) (f : A -> res B) e,
@@ -131,10 +130,10 @@ Proof.
 Qed.
 
 
-Hypothesis HW : RelW O stale C W.
+Hypothesis HW : RelW O C W.
 
 Lemma args_forall2 : forall n vg vn vf L es vs ce fi fp frs,
-  evals (eval O stale lits n W vg vn vf L) es = Ok vs -> cenv_rel O C W ce vg vn vf ->
+  evals (eval O lits n W vg vn vf L) es = Ok vs -> cenv_rel O C W ce vg vn vf ->
   Forall2 (comp_ok O C W ce L fi fp frs) (map (fun a => cexpr ce a) es) (map (fun v => [v]) vs).
 Proof.
   intros n vg vn vf L es vs ce fi fp frs H Hrel. revert vs H.
@@ -142,11 +141,11 @@ Proof.
   - inversion H. constructor.
   - apply bind_ok in H. destruct H as (v & Hv & H). apply bind_ok in H. destruct H as (vs' & Hvs & E).
     inversion E. simpl. constructor; [|apply IHes; assumption].
-    eapply (expr_correct O stale lits C W HW n); eassumption.
+    eapply (expr_correct O lits C W HW n); eassumption.
 Qed.
 
 Lemma args_err : forall n, expr_err n -> forall vg vn vf L es e ce fi fp frs,
-  evals (eval O stale lits n W vg vn vf L) es = Err e -> cenv_rel O C W ce vg vn vf ->
+  evals (eval O lits n W vg vn vf L) es = Err e -> cenv_rel O C W ce vg vn vf ->
   comp_err ce L fi fp frs (cseq (map (fun a => cexpr ce a) es)) e.
 Proof.
   intros n IH vg vn vf L es e ce fi fp frs H Hrel.
@@ -160,7 +159,7 @@ Lemma lift_err : forall (r : res (value Q)) (k : value Q -> sres) e, r = Err e -
 Proof. intros. subst. reflexivity. Qed.
 
 Lemma err_un : forall n, expr_err n -> forall vg vn vf L op a e ce fi fp frs,
-  bind (eval O stale lits n W vg vn vf L a) (apply_un O op) = Err e -> cenv_rel O C W ce vg vn vf ->
+  bind (eval O lits n W vg vn vf L a) (apply_un O op) = Err e -> cenv_rel O C W ce vg vn vf ->
   comp_err ce L fi fp frs (cexpr ce (EUn op a)) e.
 Proof.
   intros n IH vg vn vf L op a e ce fi fp frs H Hrel.
@@ -169,7 +168,7 @@ Proof.
     intros. simpl. split; [reflexivity | symmetry; apply app_nil_r].
   - apply (err_emit ce L fi fp frs (cexpr ce a) _ [va] e
              (fun _ _ => match op with UFact k => chk16 k (IUn op) | _ => IUn op end)).
-    + eapply (expr_correct O stale lits C W HW n); eassumption.
+    + eapply (expr_correct O lits C W HW n); eassumption.
     + intros. simpl. split; reflexivity.
     + intros nk na ip stk s Hm Hs Hl.
       assert (E : match op with UFact k => chk16 k (IUn op) | _ => IUn op end = IUn op).
@@ -178,8 +177,8 @@ Proof.
 Qed.
 
 Lemma err_bin : forall n, expr_err n -> forall vg vn vf L op a b e ce fi fp frs,
-  bind (eval O stale lits n W vg vn vf L a)
-       (fun va => bind (eval O stale lits n W vg vn vf L b) (fun vb => apply_bin O op va vb)) = Err e ->
+  bind (eval O lits n W vg vn vf L a)
+       (fun va => bind (eval O lits n W vg vn vf L b) (fun vb => apply_bin O op va vb)) = Err e ->
   cenv_rel O C W ce vg vn vf ->
   comp_err ce L fi fp frs (cexpr ce (EBin op a b)) e.
 Proof.
@@ -187,7 +186,7 @@ Proof.
   apply bind_err in H. destruct H as [H|(va & Ha & H)].
   - eapply (err_in_prefix ce L fi fp frs (cexpr ce a)); [eapply IH; eassumption|].
     intros. simpl. rewrite <- app_assoc. split; reflexivity.
-  - pose proof (expr_correct O stale lits C W HW n _ _ _ _ _ _ Ha ce fi fp frs Hrel) as Hca.
+  - pose proof (expr_correct O lits C W HW n _ _ _ _ _ _ Ha ce fi fp frs Hrel) as Hca.
     apply bind_err in H. destruct H as [H|(vb & Hb & H)].
     + apply (err_after ce L fi fp frs (cexpr ce a) _ [va] e
                (fun nk na => f_code (cexpr ce b (nk + length (f_consts (cexpr ce a nk na))) (f_na (cexpr ce a nk na))) ++ [IBin op])
@@ -196,7 +195,7 @@ Proof.
       * intros nk na ip stk s Hm Hs Hl Hat Hk.
         apply at_code_app in Hat. destruct Hat as [Hat _]. apply nomark_app in Hm. destruct Hm as [Hm _].
         exact (IH _ _ _ _ _ _ H ce fi fp frs Hrel _ _ ip _ s (stack_ok_push W _ _ _ _ [va] Hs) Hl Hat Hk Hm).
-    + pose proof (expr_correct O stale lits C W HW n _ _ _ _ _ _ Hb ce fi fp frs Hrel) as Hcb.
+    + pose proof (expr_correct O lits C W HW n _ _ _ _ _ _ Hb ce fi fp frs Hrel) as Hcb.
       apply (err_emit ce L fi fp frs
                (fun nk na => fapp (cexpr ce a nk na)
                                   (cexpr ce b (nk + length (f_consts (cexpr ce a nk na))) (f_na (cexpr ce a nk na))))
@@ -208,7 +207,7 @@ Proof.
 Qed.
 
 Lemma err_list : forall n, expr_err n -> forall vg vn vf L es e ce fi fp frs,
-  bind (evals (eval O stale lits n W vg vn vf L) es) (fun vs => Ok (VList vs)) = Err e ->
+  bind (evals (eval O lits n W vg vn vf L) es) (fun vs => Ok (VList vs)) = Err e ->
   cenv_rel O C W ce vg vn vf ->
   comp_err ce L fi fp frs (cexpr ce (EList es)) e.
 Proof.
@@ -220,7 +219,7 @@ Qed.
 
 
 Lemma err_field : forall n, expr_err n -> forall vg vn vf L a fname sfields e ce fi fp frs,
-  eval O stale lits (S n) W vg vn vf L (EField a fname sfields) = Err e ->
+  eval O lits (S n) W vg vn vf L (EField a fname sfields) = Err e ->
   cenv_rel O C W ce vg vn vf ->
   comp_err ce L fi fp frs (cexpr ce (EField a fname sfields)) e.
 Proof.
@@ -237,7 +236,7 @@ Proof.
 Qed.
 
 Lemma err_cond : forall n, expr_err n -> forall vg vn vf L c t f e ce fi fp frs,
-  eval O stale lits (S n) W vg vn vf L (ECond c t f) = Err e ->
+  eval O lits (S n) W vg vn vf L (ECond c t f) = Err e ->
   cenv_rel O C W ce vg vn vf ->
   comp_err ce L fi fp frs (cexpr ce (ECond c t f)) e.
 Proof.
@@ -245,7 +244,7 @@ Proof.
   apply bind_err in H. destruct H as [H|(vc & Hc & H)].
   - eapply (err_in_prefix ce L fi fp frs (cexpr ce c)); [eapply IH; eassumption|].
     intros. simpl. split; reflexivity.
-  - pose proof (expr_correct O stale lits C W HW n _ _ _ _ _ _ Hc ce fi fp frs Hrel) as Hcc.
+  - pose proof (expr_correct O lits C W HW n _ _ _ _ _ _ Hc ce fi fp frs Hrel) as Hcc.
     intros nk na ip stk s Hs Hl Ha Hk Hm. simpl in *.
     set (fc := cexpr ce c nk na) in *.
     set (ft := cexpr ce t (nk + length (f_consts fc)) (f_na fc)) in *.
@@ -281,7 +280,7 @@ Proof.
 Qed.
 
 Lemma err_string : forall n, expr_err n -> forall vg vn vf L parts e ce fi fp frs,
-  eval O stale lits (S n) W vg vn vf L (EString parts) = Err e ->
+  eval O lits (S n) W vg vn vf L (EString parts) = Err e ->
   cenv_rel O C W ce vg vn vf ->
   comp_err ce L fi fp frs (cexpr ce (EString parts)) e.
 Proof.
@@ -289,7 +288,7 @@ Proof.
   destruct (negb (fst lits)); [discriminate|].
   apply bind_err in H. destruct H as [H|(strs & _ & H)]; [|discriminate].
   destruct (evals_err_split _ _ _ H) as (l1 & p & l2 & strs1 & E & H1 & H2). subst parts.
-  destruct (ok_parts O stale lits C W n (expr_correct O stale lits C W HW n) vg vn vf L ce fi fp frs l1 strs1 Hrel H1)
+  destruct (ok_parts O lits C W n (expr_correct O lits C W HW n) vg vn vf L ce fi fp frs l1 strs1 Hrel H1)
     as (pushes & F1 & _).
   eapply (err_in_prefix ce L fi fp frs (cseq (map (part_sub ce) (l1 ++ p :: l2))) _ e
             (fun _ _ => [chk16 (length (l1 ++ p :: l2)) (IJoinString (length (l1 ++ p :: l2)))]) (fun _ _ => [])).
@@ -311,7 +310,7 @@ Lemma clocals_err : forall n, expr_err n -> forall vg vn vf ce fi fp frs below,
   cenv_rel O C W ce vg vn vf -> length below = fp ->
   (exists upper, below = upper ++ rev (map snd (w_globals W))) ->
   forall wl L0 e nk na ip s,
-    bind_locals (fun L x => eval O stale lits n W vg vn vf L x) L0 wl = Err e ->
+    bind_locals (fun L x => eval O lits n W vg vn vf L x) L0 wl = Err e ->
     m_last s = w_last W ->
     at_code C fi ip (f_code (fst (clocals ce (map fst L0) wl nk na))) ->
     consts_at C nk (f_consts (fst (clocals ce (map fst L0) wl nk na))) ->
@@ -323,7 +322,7 @@ Proof.
   - discriminate.
   - simpl in H. simpl in Ha, Hk, Hm.
     set (f1 := cexpr (with_locals ce (Some (map fst L0))) ex nk na) in *.
-    specialize (IHwl (L0 ++ [(x, match eval O stale lits n W vg vn vf L0 ex with Ok v => v | _ => VBool true end)]) e
+    specialize (IHwl (L0 ++ [(x, match eval O lits n W vg vn vf L0 ex with Ok v => v | _ => VBool true end)]) e
                      (nk + length (f_consts f1)) (f_na f1)).
     rewrite map_app in IHwl. simpl in IHwl.
     destruct (clocals ce (map fst L0 ++ [x]) wl (nk + length (f_consts f1)) (f_na f1)) as [f2 ls'] eqn:Ecl.
@@ -338,7 +337,7 @@ Proof.
     apply bind_err in H. destruct H as [H|(v & Hv & H)].
     + exact (IH _ _ _ _ _ _ H (with_locals ce (Some (map fst L0))) fi fp frs
                 (cenv_rel_locals O C W _ _ _ _ _ Hrel) nk na ip _ s Hs Hl Ha1 Hk1 Hm1).
-    + destruct (expr_correct O stale lits C W HW n _ _ _ _ _ _ Hv (with_locals ce (Some (map fst L0))) fi fp frs
+    + destruct (expr_correct O lits C W HW n _ _ _ _ _ _ Hv (with_locals ce (Some (map fst L0))) fi fp frs
                   (cenv_rel_locals O C W _ _ _ _ _ Hrel) nk na ip _ s Hs Hl Ha1 Hk1 Hm1) as [k1 S1].
       fold f1 in S1. rewrite Hv in IHwl.
       destruct (IHwl (ip + csize (f_code f1)) s H Hl Ha2 Hk2 Hm2) as (k2 & s' & S2 & E).
@@ -349,9 +348,9 @@ Qed.
 Lemma call_err : forall n, expr_err n -> forall i name fd vs e,
   nth_error (w_fns W) i = Some (name, fd) ->
   (if Nat.eqb (length (fd_params fd)) (length vs) then
-     bind (bind_locals (fun L' e' => eval O stale lits n W (fd_nglob fd) (S i) (fd_nforeign fd) L' e')
+     bind (bind_locals (fun L' e' => eval O lits n W (fd_nglob fd) (S i) (fd_nforeign fd) L' e')
                        (combine (fd_params fd) vs) (fd_locals fd))
-          (fun L' => eval O stale lits n W (fd_nglob fd) (S i) (fd_nforeign fd) L' (fd_body fd))
+          (fun L' => eval O lits n W (fd_nglob fd) (S i) (fd_nforeign fd) L' (fd_body fd))
    else Wrong) = Err e ->
   forall fi ip fp frs stk0 s,
     (exists upper, stk0 = upper ++ rev (map snd (w_globals W))) -> m_last s = w_last W ->
@@ -364,7 +363,7 @@ Proof.
   destruct (Nat.eqb (length (fd_params fd)) (length vs)) eqn:El; [|discriminate].
   apply Nat.eqb_eq in El.
   unfold cfun in Hch, Hk, Hm.
-  pose proof (fun L' => clocals_ok O stale lits C W n (expr_correct O stale lits C W HW n) _ _ _ ce (S i) (length stk0)
+  pose proof (fun L' => clocals_ok O lits C W n (expr_correct O lits C W HW n) _ _ _ ce (S i) (length stk0)
                 (F fi ip fp :: frs) stk0 Hrel eq_refl Hup (fd_locals fd) (combine (fd_params fd) vs) L' nk na 0 s) as CL.
   pose proof (fun e' => clocals_err n IH _ _ _ ce (S i) (length stk0) (F fi ip fp :: frs) stk0 Hrel eq_refl Hup
                 (fd_locals fd) (combine (fd_params fd) vs) e' nk na 0 s) as CE.
@@ -392,7 +391,7 @@ Proof.
 Qed.
 
 Lemma err_call : forall n, expr_err n -> forall vg vn vf L f args e ce fi fp frs,
-  eval O stale lits (S n) W vg vn vf L (ECall f args) = Err e ->
+  eval O lits (S n) W vg vn vf L (ECall f args) = Err e ->
   cenv_rel O C W ce vg vn vf ->
   comp_err ce L fi fp frs (cexpr ce (ECall f args)) e.
 Proof.
@@ -408,7 +407,7 @@ Proof.
     destruct (Hpre nk na) as (tl & E1 & E2). rewrite E1 in Hat, Hm. rewrite E2 in Hk.
     apply at_code_app in Hat. destruct Hat as [Hat _]. apply nomark_app in Hm. destruct Hm as [Hm _].
     exact (Ha nk na ip stk s Hs Hl Hat Hk Hm).
-  - pose proof (ok_args O stale lits C W n (expr_correct O stale lits C W HW n) _ _ _ _ _ _ ce fi fp frs Hvs Hrel) as Hargs.
+  - pose proof (ok_args O lits C W n (expr_correct O lits C W HW n) _ _ _ _ _ _ ce fi fp frs Hvs Hrel) as Hargs.
     pose proof (evals_length _ _ _ Hvs) as Hlen.
     pose proof Hrel as (Hg & Hch & Hfn & [rest Hffi] & Hmem & Hrest).
     specialize (Hmem f).
@@ -441,7 +440,7 @@ Qed.
 
 
 Lemma err_callable : forall n, expr_err n -> forall vg vn vf L callee args e ce fi fp frs,
-  eval O stale lits (S n) W vg vn vf L (ECallable callee args) = Err e ->
+  eval O lits (S n) W vg vn vf L (ECallable callee args) = Err e ->
   cenv_rel O C W ce vg vn vf ->
   comp_err ce L fi fp frs (cexpr ce (ECallable callee args)) e.
 Proof.
@@ -449,7 +448,7 @@ Proof.
   apply bind_err in H. destruct H as [H|(vs & Hvs & H)].
   - eapply (err_in_prefix ce L fi fp frs (cseq (map (fun a => cexpr ce a) args))); [eapply args_err; eassumption|].
     intros. simpl. split; reflexivity.
-  - pose proof (ok_args O stale lits C W n (expr_correct O stale lits C W HW n) _ _ _ _ _ _ ce fi fp frs Hvs Hrel) as Hargs.
+  - pose proof (ok_args O lits C W n (expr_correct O lits C W HW n) _ _ _ _ _ _ ce fi fp frs Hvs Hrel) as Hargs.
     pose proof (evals_length _ _ _ Hvs) as Hlen.
     apply bind_err in H. destruct H as [H|(c & Hc & H)].
     + apply (err_after ce L fi fp frs (cseq (map (fun a => cexpr ce a) args)) _ (rev vs) e
@@ -466,7 +465,7 @@ Proof.
       * intros nk na ip stk s Hm Hs Hl Hat Hk.
         apply at_code_app in Hat. destruct Hat as [Hat _]. apply nomark_app in Hm. destruct Hm as [Hm _].
         exact (IH _ _ _ _ _ _ H ce fi fp frs Hrel _ _ ip _ s (stack_ok_push W _ _ _ _ (rev vs) Hs) Hl Hat Hk Hm).
-    + pose proof (expr_correct O stale lits C W HW n _ _ _ _ _ _ Hc ce fi fp frs Hrel) as Hcallee.
+    + pose proof (expr_correct O lits C W HW n _ _ _ _ _ _ Hc ce fi fp frs Hrel) as Hcallee.
       apply (err_after ce L fi fp frs
                (fun nk na => fapp (cseq (map (fun a => cexpr ce a) args) nk na)
                                   (cexpr ce callee (nk + length (f_consts (cseq (map (fun a => cexpr ce a) args) nk na)))
@@ -483,13 +482,12 @@ Proof.
         apply nomark_one in Hm. destruct Hm as [Hm _]. apply chk16_ok in Hm. destruct Hm as [Hm _].
         rewrite Hm in *.
         destruct (leb_len_app vs stk (length args) (eq_sym Hlen)) as [Hle Hsub].
-        pose proof HW as (Hfuns & Hforeign & Hstale).
+        pose proof HW as (Hfuns & Hforeign).
         destruct c; try discriminate. destruct f as [name [|i]|name]; try discriminate.
-        -- destruct (stale name (S i)) eqn:Est; [discriminate|].
-           destruct (nth_error (w_fns W) i) as [[name' fd]|] eqn:Hi; [|discriminate].
+        -- destruct (nth_error (w_fns W) i) as [[name' fd]|] eqn:Hi; [|discriminate].
            assert (S1 : steps 1 (St fi ip fp frs ([VFun (FNormal name (S i))] ++ rev vs ++ stk) s)
                         = Some (mk (F (S i) 0 (length stk) :: F fi (ip + 5) fp :: frs) (rev vs ++ stk) s)).
-           { eapply run_one; [exact Ha|]. simpl. rewrite (Hstale _ _ Est). rewrite Hle, Hsub. reflexivity. }
+           { eapply run_one; [exact Ha|]. simpl. rewrite Hle, Hsub. reflexivity. }
            destruct Hs as [Hup _].
            destruct (call_err n IH i name' fd vs e Hi H fi (ip + 5) fp frs stk s Hup Hl) as (k2 & s' & S2 & E).
            exists (1 + k2), s'. rewrite <- app_assoc. split; [eapply steps_trans; eassumption | exact E].
@@ -528,25 +526,22 @@ End Err.
 Section TopErr.
 Context {Q : Type}.
 Variable O : ops Q.
-Variable stale : string -> nat -> bool.
 Variable lits : bool * bool.
 Hypothesis Hnostruct : snd lits = false.
 Hypothesis fmt_total : forall spec v, exists s, fmt_spec O spec v = Ok s.
 Variable fin : @cstate Q.
 Notation C := (finish fin).
 Hypothesis Hok : compile_ok (finish fin) = true.
-Hypothesis Hstale : forall name idx,
-  stale name idx = false -> rposition name (chunk_names (finish fin)) = Some idx.
 
 Lemma top_expr_err : forall st rst ms n e err tail r1 r2,
   Inv O fin st rst ms ->
-  top_eval O stale lits n (r_world rst) e = Err err ->
+  top_eval O lits n (r_world rst) e = Err err ->
   s_main fin = (s_main st ++ f_code (cexpr (s_env st) e (length (s_consts st)) (s_na st)) ++ tail) ++ r1 ->
   s_consts fin = (s_consts st ++ f_consts (cexpr (s_env st) e (length (s_consts st)) (s_na st))) ++ r2 ->
   exists k s', steps O C k ms = Some s' /\ Machine.step O C s' = SErr err.
 Proof.
   intros st rst ms n e err tail r1 r2 HI H Em Ek.
-  pose proof (Inv_RelW O stale fin Hstale _ _ _ HI) as HW.
+  pose proof (Inv_RelW O fin _ _ _ HI) as HW.
   destruct HI as (Hpre & Hrel & Hloc & _ & _ & _ & Ems).
   assert (Hs : stack_ok (r_world rst) (s_env st) [] 0 (rev (map snd (w_globals (r_world rst))))).
   { split; [exists []; reflexivity|]. rewrite Hloc. split; reflexivity. }
@@ -554,7 +549,7 @@ Proof.
   { eapply (main_nomark fin Hok (s_main st) _ (tail ++ r1)).
     rewrite Em. rewrite <- !app_assoc. reflexivity. }
   unfold top_eval in H.
-  destruct (expr_errs O stale lits Hnostruct fmt_total C (r_world rst) HW n _ _ _ _ _ _ H (s_env st) 0 0 [] Hrel
+  destruct (expr_errs O lits Hnostruct fmt_total C (r_world rst) HW n _ _ _ _ _ _ H (s_env st) 0 0 [] Hrel
               _ _ (csize (s_main st)) _ ms Hs (eq_trans (f_equal (@m_last Q) Ems) eq_refl)
               (main_at fin _ _ _ _ Em) (consts_pre_at fin _ _ _ Ek) Hm) as (k & s' & S1 & E).
   exists k, s'. split; [|exact E]. rewrite <- S1. f_equal. rewrite Ems. reflexivity.
@@ -562,7 +557,7 @@ Qed.
 
 Lemma stmt_err : forall n s st rst ms e,
   Inv O fin st rst ms -> pre (cstmt s st) fin ->
-  exec_stmt O stale lits n s rst = Err e ->
+  exec_stmt O lits n s rst = Err e ->
   exists k s', steps O C k ms = Some s' /\ Machine.step O C s' = SErr e.
 Proof.
   intros n s st rst ms e HI Hpre H. destruct s; simpl in H; try discriminate.
@@ -573,7 +568,7 @@ Proof.
     pose proof Hpre as ([r2 Ek] & [r1 Em] & _). simpl in Ek, Em.
     eapply top_expr_err; eassumption.
   - (* procedure call *)
-    pose proof (Inv_RelW O stale fin Hstale _ _ _ HI) as HW.
+    pose proof (Inv_RelW O fin _ _ _ HI) as HW.
     destruct HI as (Hp0 & Hrel & Hloc & Hst & Hf & Hlen & Ems).
     set (W := r_world rst) in *.
     set (fargs := cseq (map (fun a => cexpr (s_env st) a) args) (length (s_consts st)) (s_na st)) in *.
@@ -594,7 +589,7 @@ Proof.
     { eapply (main_nomark fin Hok (s_main st) _ r1). exact Em. }
     apply nomark_app in Hmall. destruct Hmall as [Hm1 Hm2].
     apply bind_err in H. destruct H as [H|(vs & Hvs & H)].
-    + destruct (args_err O stale lits C W HW n (expr_errs O stale lits Hnostruct fmt_total C W HW n)
+    + destruct (args_err O lits C W HW n (expr_errs O lits Hnostruct fmt_total C W HW n)
                   _ _ _ [] args e (s_env st) 0 0 [] H Hrel
                   (length (s_consts st)) (s_na st) (csize (s_main st)) _ ms Hs
                   (eq_trans (f_equal (@m_last Q) Ems) eq_refl)
@@ -602,7 +597,7 @@ Proof.
       exists k, s'. split; [|exact E]. rewrite <- S1. f_equal. rewrite Ems. reflexivity.
     + apply bind_err in H. destruct H as [H|(lines & _ & H)]; [|discriminate].
       pose proof (evals_length _ _ _ Hvs) as Hl.
-      pose proof (ok_args O stale lits C W n (expr_correct O stale lits C W HW n) _ _ _ [] args vs
+      pose proof (ok_args O lits C W n (expr_correct O lits C W HW n) _ _ _ [] args vs
                     (s_env st) 0 0 [] Hvs Hrel) as Hargs.
       destruct (Hargs (length (s_consts st)) (s_na st) (csize (s_main st)) _ ms Hs
                   (eq_trans (f_equal (@m_last Q) Ems) eq_refl)
@@ -628,7 +623,7 @@ Qed.
 
 Lemma stmts_err : forall n p st rst ms e,
   Inv O fin st rst ms -> cstmts p st = fin ->
-  exec_stmts O stale lits n p rst = Err e ->
+  exec_stmts O lits n p rst = Err e ->
   exists k s', steps O C k ms = Some s' /\ Machine.step O C s' = SErr e.
 Proof.
   induction p as [|s p IH]; intros st rst ms e HI Efin H.
@@ -637,7 +632,7 @@ Proof.
     assert (Hpre : pre (cstmt s st) fin) by (rewrite <- Efin; apply cstmts_pre).
     apply bind_err in H. destruct H as [H|(rst1 & H1 & H2)].
     + eapply stmt_err; eassumption.
-    + destruct (stmt_step O stale lits fin Hok Hstale n s st rst rst1 ms HI Hpre H1) as (k1 & ms1 & S1 & HI1).
+    + destruct (stmt_step O lits fin Hok n s st rst rst1 ms HI Hpre H1) as (k1 & ms1 & S1 & HI1).
       destruct (IH _ _ _ _ HI1 Efin H2) as (k2 & s' & S2 & E).
       exists (k1 + k2), s'. split; [eapply steps_trans; eassumption | exact E].
 Qed.
@@ -652,22 +647,16 @@ Proof.
 Qed.
 
 (* the reference semantics without struct literals; strings with parts are included *)
-Definition run_checked_nostruct {Q} (O : ops Q) (n : nat) (p : program Q) :=
-  RefSem.run O (stale_in p) (true, false) n p.
 
 Theorem compile_errors {Q} : forall (O : ops Q) (p : program Q) n e,
   (forall spec v, exists s, fmt_spec O spec v = Ok s) ->
   compile_ok (compile (procs O) p) = true ->
-  run_checked_nostruct O n p = Err e ->
+  run_ref_nostruct O n p = Err e ->
   exists m, Machine.run O (compile (procs O) p) m = Err e.
 Proof.
-  intros O p n e Hfmt Hok H. unfold run_checked_nostruct, RefSem.run in H.
+  intros O p n e Hfmt Hok H. unfold run_ref_nostruct, RefSem.run in H.
   apply bind_err in H. destruct H as [H|(rst' & _ & H)]; [|discriminate].
   set (fin := cstmts p (cinit (procs O))).
-  assert (Hst : forall name idx, stale_in p name idx = false ->
-                                 rposition name (chunk_names (finish fin)) = Some idx).
-  { intros name idx Hs. unfold fin. change (finish (cstmts p (cinit (procs O)))) with (compile (procs O) p).
-    rewrite chunk_names_compile. apply stale_in_rposition. exact Hs. }
   assert (HI : Inv O fin (cinit (procs O)) rinit (minit (Q := Q))).
   { refine (conj (cstmts_pre _ _) (conj _ (conj eq_refl (conj eq_refl (conj _ (conj eq_refl eq_refl)))))).
     - unfold cenv_rel. simpl.
@@ -678,7 +667,7 @@ Proof.
       + destruct (cstmts_pre p (cinit (procs O))) as (_ & _ & _ & _ & [r E]). exists r. exact E.
       + exists []. reflexivity.
     - intros i name fd Hi. destruct i; discriminate. }
-  destruct (stmts_err O (stale_in p) (true, false) eq_refl Hfmt fin Hok Hst n p _ _ _ _ HI eq_refl H)
+  destruct (stmts_err O (true, false) eq_refl Hfmt fin Hok n p _ _ _ _ HI eq_refl H)
     as (k & s' & S & E).
   exists (k + 1). unfold Machine.run. change (compile (procs O) p) with (finish fin).
   eapply steps_err_run; eassumption.
@@ -695,7 +684,7 @@ Qed.
 Theorem no_panic_after_err {Q} : forall (O : ops Q) (p : program Q) n e,
   (forall spec v, exists s, fmt_spec O spec v = Ok s) ->
   compile_ok (compile (procs O) p) = true ->
-  run_checked_nostruct O n p = Err e ->
+  run_ref_nostruct O n p = Err e ->
   forall m, Machine.run O (compile (procs O) p) m = Fuel
             \/ Machine.run O (compile (procs O) p) m = Err e.
 Proof.
